@@ -159,3 +159,20 @@ pub fn run_text_whitespace(sc: &Value) -> Value {
     }
     json!({"outcome": kinds.join("/"), "values_equal": vals.windows(2).all(|w| w[0] == w[1])})
 }
+
+/// C16: both writers on a link with two-algorithm digest tables, many times (each HashMap instance has its own random order)
+pub fn run_writers_deterministic(_sc: &Value) -> Value {
+    use in_toto::interchange::{DataInterchange, Json, JsonPretty};
+    use in_toto::models::LinkMetadata;
+    let doc = json!({"_type":"link","name":"s0","materials":{},"products":{"a":{"sha256":"01","sha512":"02"},"b":{"sha256":"03","sha512":"04"}},
+                     "environment":{"K":"V","L":"W"},"byproducts":{"return-value":0,"stdout":"o","stderr":"e"},"command":["x"]});
+    let mut seen_p: Vec<Vec<u8>> = Vec::new(); let mut seen_c: Vec<Vec<u8>> = Vec::new();
+    for _ in 0..64 {
+        let link: LinkMetadata = serde_json::from_value(doc.clone()).expect("link parses");
+        let mut p = Vec::new(); JsonPretty::to_writer(&mut p, &link).expect("pretty");
+        let mut c = Vec::new(); Json::to_writer(&mut c, &link).expect("canonical");
+        if !seen_p.contains(&p) { seen_p.push(p); }
+        if !seen_c.contains(&c) { seen_c.push(c); }
+    }
+    json!({"outcome": if seen_p.len() == 1 && seen_c.len() == 1 { "stable" } else { "differs" }})
+}
